@@ -41,8 +41,11 @@ func writeCurrent(p *Plan) {
 
 // judge runs one plan and records the outcome. It returns the text of the
 // first violation that is not a listed known finding ("" when none).
+var lastPlan *Plan
+
 func judge(t *testing.T, r *report.R, spec *CheckSpec, p *Plan) string {
 	writeCurrent(p)
+	lastPlan = p
 	tr := Run(t, p)
 	if tr.HarnessErr != "" {
 		t.Fatalf("harness error: %s", tr.HarnessErr)
@@ -55,6 +58,9 @@ func judge(t *testing.T, r *report.R, spec *CheckSpec, p *Plan) string {
 	}
 	h := report.Hash(p)
 	r.Case(h, v.Nontrivial, v.Classes...)
+	if tr.ExcludedRestartAfterFailedStop > 0 {
+		r.Class("excluded:restart-after-unclean-stop(known finding C09/C20: restarted as a new election instead)", tr.ExcludedRestartAfterFailedStop)
+	}
 	key := strings.Join(v.Classes, ",")
 	if len(key) > 60 {
 		key = key[:60]
@@ -80,6 +86,24 @@ func judge(t *testing.T, r *report.R, spec *CheckSpec, p *Plan) string {
 func RunCheck(t *testing.T, spec CheckSpec) {
 	r := report.New(spec.Prop)
 	defer r.Write()
+	// Race-detector builds: when the detector fires inside a bubble, testing/synctest ends the test
+	// goroutine (FailNow) as soon as the bubble returns, before the oracle runs. The reports are
+	// therefore collected here, on the way out, and belong to the plan that was running.
+	defer func() {
+		if !raceEnabled || lastPlan == nil {
+			return
+		}
+		for _, rr := range newRaceReports() {
+			sig := rr.Sig
+			if !rr.Lib {
+				sig = "HARNESS " + sig
+			}
+			if r.IsKnown(sig) {
+				continue
+			}
+			r.Violation(report.Violation{Signature: sig, Message: rr.Text, Replay: r.SaveReplay(lastPlan), Size: len(lastPlan.JSON())})
+		}
+	}()
 	r.Rule = spec.Rule
 	r.MaxSamples = 4
 	for _, a := range spec.Assumptions {
